@@ -42,13 +42,10 @@ def answer(user, pw, salt):
     return answer_from_shadow(md5hex(pw.encode() + user.encode()), salt)
 
 
-def latin1_as_pgcat(b):
-    """messages.rs parse_params: every byte becomes the char U+00xx of a String"""
-    return b.decode("latin1")
 
 
 # ------------------------------------------------------------------ configuration generator
-USERS = ["alice", "bob", "carol", "dave", "eve", "mallory", "pgcat", "admin", "Zoë", "a b", "x"]
+USERS = ["alice", "bob", "carol", "dave", "eve", "mallory", "pgcat", "admin", "Zoë", "a b", "x", "Zo\ufffd"]   # the last: what a non-UTF-8 name decodes to
 PWS = ["apw", "secret", "hunter2", "p w", "", "pa$$wörd", "0", "md5abc", "correct horse battery staple", "adminpw"]
 DBS = ["db1", "app", "shop", "alice", "Düb", "postgres"]
 
@@ -155,8 +152,7 @@ def gen_client(rng, cfg, cname, shadow_pw):
     pw = (sv[1]["pw"] if sv and sv[1]["pw"] is not None else shadow_pw.get(user, "nopw")) if sv else "x"
     st = {"op": "connect", "c": cname, "params": {}, "timeout_ms": 250}
     auth_user = user
-    sparams = [(b"user", user.encode("latin1", "replace") if all(ord(c) < 256 for c in user) else user.encode()),
-               (b"database", db.encode("latin1", "replace") if all(ord(c) < 256 for c in db) else db.encode()), app]
+    sparams = [(b"user", user.encode()), (b"database", db.encode()), app]       # UTF-8, as every real client sends them
     raw = None
     desc = kind
     nopost = False
@@ -293,7 +289,8 @@ def gen_client(rng, cfg, cname, shadow_pw):
             raw = struct.pack(">ii", 8, 80877103) + struct.pack(">i", 0)
             st["ssl_byte"] = True
     elif kind == "weirdstartup":
-        w = rng.choice(["nouser", "odd", "unterminated", "nofinalnul", "dup", "dbdefault", "empty", "empty2", "shift", "latin1", "emptyval", "order"])
+        w = rng.choice(["nouser", "odd", "unterminated", "nofinalnul", "dup", "dbdefault", "empty", "empty2", "shift", "latin1", "emptyval", "order",
+                        "latin1name", "latin1name", "badutf8name", "emptyname_mid", "name_no_value", "name_unterminated", "emptydb", "emptyuser"])
         desc = "weirdstartup:" + w
         ub, dbb = sparams[0][1], sparams[1][1]
         if w == "nouser":
@@ -324,6 +321,33 @@ def gen_client(rng, cfg, cname, shadow_pw):
             raw = startup_pkt([(b"user", ub), (b"database", dbb), (b"options", b""), app])
         elif w == "order":
             raw = startup_pkt([app, (b"database", dbb), (b"user", ub)])
+        elif w == "latin1name":                   # the name in Latin-1 bytes: not UTF-8, decoded lossily (U+FFFD)
+            fffd = [(d_, u_) for d_, u_ in pairs if "\ufffd" in u_]
+            if fffd:
+                db, user = rng.choice(fffd)
+                sv = served(cfg, db, user)
+                pw = sv[1]["pw"] if sv[1]["pw"] is not None else shadow_pw.get(user, "nopw")
+                auth_user, dbb = user, db.encode()
+            if "\ufffd" in user:                 # an invalid byte where the configured name has U+FFFD: the same user after decoding
+                nb = b"\xeb".join(x.encode() for x in user.split("\ufffd"))
+            else:
+                nb = user.encode("latin1", "replace") + (b"" if any(ord(c) > 127 for c in user) else b"\xe9")
+            raw = startup_pkt([(b"user", nb), (b"database", dbb), app])
+        elif w == "badutf8name":                  # truncated / overlong / surrogate sequences inside the name
+            raw = startup_pkt([(b"user", ub + rng.choice([b"\xc3", b"\xe2\x82", b"\xc0\xaf", b"\xed\xa0\x80", b"\xf4\x90\x80\x80", b"\xff"])), (b"database", dbb), app])
+        elif w == "emptyname_mid":                # an empty name ends the list: database and the tag are not read
+            body = struct.pack(">i", 196608) + b"user\0" + ub + b"\0\0database\0" + dbb + b"\0" + app[0] + b"\0" + app[1] + b"\0\0"
+            raw = struct.pack(">i", len(body) + 4) + body
+        elif w == "name_no_value":                # the bytes end after a name
+            body = struct.pack(">i", 196608) + b"user\0" + ub + b"\0database\0"
+            raw = struct.pack(">i", len(body) + 4) + body
+        elif w == "name_unterminated":            # the bytes end inside a name
+            body = struct.pack(">i", 196608) + b"user\0" + ub + b"\0datab"
+            raw = struct.pack(">i", len(body) + 4) + body
+        elif w == "emptydb":
+            raw = startup_pkt([(b"user", ub), (b"database", b""), app])
+        elif w == "emptyuser":
+            raw = startup_pkt([(b"user", b""), (b"database", dbb), app])
     if raw is None:
         raw = startup_pkt(sparams)
     # pgcat legitimately keeps waiting for bytes in these cases: do not wait long for an answer that cannot come.
@@ -526,7 +550,7 @@ def model_frames(replies):
                 k = r[1]
                 if isinstance(k, tuple):
                     if k[0] == "EWrongPassword":
-                        fr.append("err:wrongpw:" + bts(k[1]).decode("utf-8", "replace"))
+                        fr.append("err:wrongpw:" + bts(k[1]).decode("utf-8", "backslashreplace"))   # the model's name must already BE valid UTF-8
                     elif k[0] == "ENoPool":
                         fr.append("err:nopool")
                     elif k[0] == "EPoolDown":
@@ -828,12 +852,19 @@ def oracle_ident(raw):
     if code != 196608 or ln < 8 or len(raw) < off + ln:
         return None
     body = raw[off + 8: off + ln]
-    parts = [x for x in body.split(b"\0") if x != b""]
-    if len(parts) % 2:
-        return None
     d = {}
-    for i in range(0, len(parts), 2):
-        d[latin1_as_pgcat(parts[i])] = latin1_as_pgcat(parts[i + 1])
+    while body:                                   # name NUL value NUL ... ; an empty name ends the list; values may be empty
+        i = body.find(b"\0")
+        if i < 0:
+            return None
+        name, body = body[:i], body[i + 1:]
+        if not name:
+            break
+        j = body.find(b"\0")
+        if j < 0:
+            return None
+        d[name.decode("utf-8", "replace")] = body[:j].decode("utf-8", "replace")
+        body = body[j + 1:]
     if "user" not in d:
         return None
     return d["user"], d.get("database", d["user"])
